@@ -30,7 +30,7 @@ def snapshot(root):
     return out
 
 
-HARNESS_OPS = {"rmtree", "chdir", "sleep", "ping"}
+HARNESS_OPS = {"rmtree", "chdir", "sleep", "ping", "chmod"}
 LINK_BYTES = b"bytes of a file that two owners have"
 
 
@@ -93,6 +93,16 @@ def script_for(ctx, cache, key, data, dest, target, mode, owner=None):
         R("remove_hash", sri=ref.sri("sha256", LINK_BYTES)),
         R("link_to", key=key + "-l2", target=os.path.join(owner, "new", "data.bin")),
         R("remove_fully", key=key + "-l2"),
+        # the owner's file is read-only; the link to it is removed by address
+        R("link_to", key=key + "-l2", target=os.path.join(owner, "new", "data.bin")),
+        R("remove_hash", sri=ref.sri("sha256", LINK_BYTES)),
+        R("read", key=key + "-l2"),
+        # an extracted hard link (same inode as the content file) that its owner made read-only, then removal by address
+        R("write", key=key + "-l4", data=ctx.data(LINK_BYTES + b" 4")),
+        R("hard_link", key=key + "-l4", to=os.path.join(owner, "new", "extracted-hard-link")),
+        {"op": "chmod", "path": os.path.join(owner, "new", "extracted-hard-link"), "mode": 0o444},
+        R("remove_hash", sri=ref.sri("sha256", LINK_BYTES + b" 4")),
+        R("remove", key=key + "-l4"),
     ] if owner else [])
 
 
@@ -175,6 +185,7 @@ def run(ctx):
                 os.makedirs(os.path.join(owner, sub))
                 open(os.path.join(owner, sub, "data.bin"), "wb").write(LINK_BYTES)
                 open(os.path.join(owner, sub, "other.txt"), "wb").write(b"unrelated file of this owner")
+                os.chmod(os.path.join(owner, sub, "data.bin"), 0o444 if sub == "new" else 0o400)
             script = script_for(ctx, cache, key, data, dest, target, mode, owner)
             spath = os.path.join(base, "script.jsonl")
             import json
@@ -197,7 +208,8 @@ def run(ctx):
                 continue
             sris = [ref.sri("sha256", data), ref.sri("sha256", data + b"!"), ref.sri("sha256", data + b"#"),
                     ref.sri("sha256", b"link target bytes"), ref.sri("sha256", LINK_BYTES)]
-            al = allowed_paths(cache, [key, key + "-linked", key + "-l1", key + "-l2", key + "-l3"], sris)
+            sris.append(ref.sri("sha256", LINK_BYTES + b" 4"))
+            al = allowed_paths(cache, [key, key + "-linked", key + "-l1", key + "-l2", key + "-l3", key + "-l4"], sris)
             det_base = {"key": key if len(key) < 200 else key[:50] + "...", "mode": mode}
             for q, r, evs in zip(script, resps, ops):
                 op = q["op"]
@@ -316,9 +328,16 @@ def run(ctx):
             # deleted file must not come back
             want = {k: v for k, v in owner_before.items() if k != "old/data.bin"}
             got = {k: v for k, v in owner_after.items()}
-            for k in ("old", "."):
+            for k in ("old", ".", "new"):
                 want.pop(k, None)
-                got.pop(k, None)       # the directory's mtime changed with the harness's own unlink
+                got.pop(k, None)       # the directories' mtimes changed with the harness's own unlink / the extraction
+            # the extraction the script asked for: a read-only file with exactly the stored bytes
+            ex = got.pop("new/extracted-hard-link", None)
+            import stat as _stat
+            if ex is not None and (_stat.S_IMODE(ex[0]) != 0o444 or ex[3] != hashlib.sha1(LINK_BYTES + b" 4").hexdigest()):
+                ctx.violation(f"script|{mode}|extracted-file-changed",
+                              f"a hard-linked extraction that its owner made read-only has mode {oct(_stat.S_IMODE(ex[0]))} / other "
+                              f"bytes after the content was removed by address", dict(det_base, steps=[[mode, q] for q in script[-6:]]))
             if want != got:
                 ch = sorted(k for k in set(want) | set(got) if want.get(k) != got.get(k))
                 ctx.violation(f"script|{mode}|linked-owner-files-changed",
